@@ -75,6 +75,7 @@ type LinkCfg struct {
 	PrefixBlack []string `json:"prefixBlack,omitempty"`
 	PrefixWhite []string `json:"prefixWhite,omitempty"`
 	CmdBlack    []string `json:"cmdBlack,omitempty"`
+	NoRestore   bool     `json:"noRestore,omitempty"` // snapshot values are replayed as expanded commands instead of RESTORE
 }
 
 func (lc LinkCfg) ReplayMode() config.ReplayMode {
@@ -119,7 +120,7 @@ func OutputConfig(t *Target, lc LinkCfg, runID, cpName string) syncer.RedisOutpu
 		KeepaliveTicker:            3 * time.Second,
 		ReplayRdbParallel:          1,
 		Parallelism:                lc.Parallelism,
-		ReplayRdbEnableRestore:     true,
+		ReplayRdbEnableRestore:     !lc.NoRestore,
 		ReplayMode:                 lc.ReplayMode(),
 		UpdateCheckpointTicker:     20 * time.Millisecond,
 		ReplayPipeline:             lc.Mode == "pipeline",
